@@ -348,7 +348,7 @@ func genConv(r *hx.RNG, tr *hx.Trace) (*bmpx.Conv, bmpx.Cfg) {
 					an = append(an, x)
 				}
 			}
-			c.RouteMon(p, r.Chance(40), bmpx.UpdateFor(p, wd, an))
+			c.RouteMon(p, r.Chance(40), bmpx.UpdateForV(p, wd, an, bmpx.PickVariant(r)))
 			tr.Count("op_routemon")
 		case k < 70:
 			b, what := hostileBGP(r, p)
